@@ -24,7 +24,8 @@ TRUSTED = ["correspondence harness props/C19.py + props/_c19_gen.py + pv/ (fake 
            "PermissionError injection at open(), file objects whose read()/readline()/iteration raise OSError(errno), os.sysconf patch, importlib.reload of psutil._pslinux to re-run the import-time "
            "choice of cpu_freq implementation)",
            "glob.glob, sorted(set(basenames)), numeric sort of cpufreq policies: computed by the harness, not modelled",
-           "sysfs/procfs formats transcribed from the kernel ABI documents in coq/C19/Spec.v"]
+           "sysfs/procfs formats transcribed from the kernel ABI documents in coq/C19/Spec.v",
+           "props/_c19_tr.py (ast translator of sensors_battery; fail-closed) and the interpreters of coq/C19/PyGen.v"]
 ASSUMPTIONS = ["floats are modelled as exact rationals; the implementation's doubles are accepted within 2^-48 relative error; "
                "int(float) truncations (battery seconds, cpuinfo-sourced kHz) are accepted one unit off when the exact value is "
                "within 1e-9 of an integer",
@@ -322,6 +323,20 @@ def impl_run(case, coq, env):
     return _c19_impl.run(case, coq, env)
 
 
+def gen_tables(impl_dir, out_dir):
+    """Translate sensors_battery() (nested multi_bcat, head, body) of the tree under check into coq/Gen/C19_Tables.v;
+    coq/C19/ProofsGen.v proves the translated multi_bcat and head equal to the model's on every input."""
+    from props import _c19_tr
+    try:
+        _c19_tr.gen_tables(impl_dir, out_dir)
+    except _c19_tr.TranslateError as e:
+        raise TranslateError(str(e))
+
+
+class TranslateError(RuntimeError):
+    pass
+
+
 MANIFEST = {
     "text": "Theorems (Coq 8.16, closed under the global context; coq/Properties/C19.v): for every hwmon layout (any number of chips and "
             "sensors, every subset of input/max/crit/label/name files present, absent or unreadable, non-numeric inputs/thresholds) "
@@ -344,7 +359,11 @@ MANIFEST = {
             "3a32a00, d196a16, 64999d5, 1b69de5, 90bacb2). "
             "The hand-written model is tied to the code by executing both (vm_compute vs the real psutil over a fake /sys and "
             "/proc behind a path-rewriting shim) on generated layouts.",
-    "note": "Trusted: Coq kernel + vm_compute; model coq/C19/Model.v (tied by the correspondence run only); kernel formats in "
+    "note": "Round 2: sensors_battery()'s nested multi_bcat and its head (listdir guard, name filter, min) are translated from the "
+            "current source on every run (props/_c19_tr.py -> coq/Gen/C19_Tables.v, fail-closed) and proved equal to the model for all "
+            "inputs (C19_gen_multi_bcat, C19_gen_battery_head); the body (percent/plugged/secsleft) is translated into a statement "
+            "language and only pinned to a reference program (C19_gen_battery_body_pinned) that agrees with the model on 32768 computed samples. "
+            "Trusted: Coq kernel + vm_compute; the rest of model coq/C19/Model.v incl. battery_of (tied by the correspondence run only); kernel formats in "
             "coq/C19/Spec.v; harness (glob/sort order, shim, reload of _pslinux for the import-time cpu_freq choice); CPython "
             "float/int/strip; IEEE doubles (exact rationals in the model, 2^-48 tolerance).",
 }
